@@ -8,7 +8,7 @@
    violates the statement, see C16_Refuted.v. *)
 From SG Require Import Base.Prelude C16.RevCache C16.RevCacheLemmas C16.RevCacheProofs C16.RevCacheContent
   C16.RevCacheRuns C16.RevCacheSharded C16.RevCacheConc C16.RevCacheConcProofs C16.RevCacheConcRest
-  C16.RevCacheDelta C16.RevCacheDeltaProofs C16.RevCacheStep C16.RevCacheStepProofs.
+  C16.RevCacheDelta C16.RevCacheDeltaProofs C16.RevCacheDeltaLink C16.RevCacheStep C16.RevCacheStepProofs.
 Open Scope Z_scope.
 
 (* the number of cached items never exceeds the configured capacity *)
@@ -248,6 +248,16 @@ Theorem C16_delta_revisions_emptied : forall cfg l a ops,
   lru (drs s') = [] /\ items (drs s') = 0 /\ dlru s' = dlru s /\ dnum s' = dnum s /\ total s' = dsum (dlru s).
 Proof. exact delta_revisions_emptied. Qed.
 Print Assumptions C16_delta_revisions_emptied.
+
+(* the extended model is conservative: without UpdateDelta it IS the plain orchestrator model of the theorems above
+   (the delta list stays empty, the revision-cache state is the same, the counter is the revision bytes) *)
+Theorem C16_delta_orchestrator_conservative : forall cfg l a ops,
+  orch cfg = true ->
+  (drs (drun cfg (dinit l a) (map DRev ops)) = run cfg (init l a) ops /\
+   dlru (drun cfg (dinit l a) (map DRev ops)) = [] /\ dby (drun cfg (dinit l a) (map DRev ops)) = 0) /\
+  total (drun cfg (dinit l a) (map DRev ops)) = bytes (run cfg (init l a) ops).
+Proof. exact delta_orchestrator_conservative. Qed.
+Print Assumptions C16_delta_orchestrator_conservative.
 
 (* data of the non-vacuity example for the refined model and for the delta orchestrator *)
 Definition ex_sched : list eact :=
